@@ -275,7 +275,7 @@ type c12Genr struct {
 }
 
 // simulate returns (deletes done by the prune ops, deletes due at the first prune op)
-func c12Simulate(st *c12State, ops []*xt.T) (total int, first int, sawErr bool) {
+func c12Simulate(st *c12State, ops []*xt.T, ages map[uint64]uint64) (total int, first int, sawErr bool) {
 	sim := c12NewSim(st)
 	first = -1
 	for _, op := range ops {
@@ -284,6 +284,14 @@ func c12Simulate(st *c12State, ops []*xt.T) (total int, first int, sawErr bool) 
 			delete(sim.refs, [2]uint64{c12Num(c12Nth(op, 1)), c12Num(c12Nth(op, 2))})
 		case 2:
 			sim.refs[[2]uint64{c12Num(c12Nth(op, 1)), c12Num(c12Nth(op, 2))}] = c12Num(c12Nth(op, 3))
+		case 4:
+			ttl := c12Num(c12Nth(op, 1))
+			for kn := range sim.refs {
+				if c12Expired(ages, ttl, kn[0], kn[1]) {
+					delete(sim.refs, kn)
+				}
+			}
+			fallthrough
 		case 0:
 			n, exp := sim.prune(-1)
 			if first < 0 {
@@ -303,7 +311,19 @@ func c12Simulate(st *c12State, ops []*xt.T) (total int, first int, sawErr bool) 
 	return
 }
 
+func c12OpGC(ttl uint64) *xt.T { return xt.N(xt.LI(4), xt.L(ttl)) }
+
+// c12EnvT: the optional 4th component of a case: process time zone code and transaction ages (minutes)
+type c12EnvT struct {
+	tz   uint64            // 0 = leave alone, else UTC offset in minutes + 1000
+	ages map[uint64]uint64 // transaction group -> age
+}
+
 func (g *c12Genr) add(tag string, mode int, st *c12State, ops ...*xt.T) {
+	g.addEnv(tag, mode, st, nil, ops...)
+}
+
+func (g *c12Genr) addEnv(tag string, mode int, st *c12State, env *c12EnvT, ops ...*xt.T) {
 	st = c12CloneState(st)
 	crash := false
 	for _, op := range ops {
@@ -315,7 +335,11 @@ func (g *c12Genr) add(tag string, mode int, st *c12State, ops ...*xt.T) {
 		c12FixOrder(st)
 		g.ctx.Count("gen_cases_with_crash_op")
 	}
-	total, _, sawErr := c12Simulate(st, ops)
+	var ages map[uint64]uint64
+	if env != nil {
+		ages = env.ages
+	}
+	total, _, sawErr := c12Simulate(st, ops, ages)
 	ncom := map[uint64]bool{}
 	for _, c := range st.commits {
 		ncom[c.id] = true
@@ -327,8 +351,19 @@ func (g *c12Genr) add(tag string, mode int, st *c12State, ops ...*xt.T) {
 		g.ctx.Count("gen_cases_deleting")
 	}
 	g.ctx.Count("gen_tag_" + tag)
-	g.cases = append(g.cases, Case{Tag: tag, Nontrivial: len(ncom) >= 3 && total > 0,
-		C: xt.N(xt.LI(mode), c12EncodeState(st), xt.N(ops...))})
+	c := xt.N(xt.LI(mode), c12EncodeState(st), xt.N(ops...))
+	if env != nil {
+		at := xt.N()
+		var gs []uint64
+		for gr := range env.ages {
+			gs = append(gs, gr)
+		}
+		for _, gr := range c12SortU64(gs) {
+			at.Add(xt.N(xt.L(gr), xt.L(env.ages[gr])))
+		}
+		c.Add(xt.N(xt.L(env.tz), at))
+	}
+	g.cases = append(g.cases, Case{Tag: tag, Nontrivial: len(ncom) >= 3 && total > 0, C: c})
 }
 
 // ---------------------------------------------------------------------------
@@ -340,6 +375,8 @@ func c12Gen(ctx *Ctx) []Case {
 	c12Exhaustive(g)
 	c12Random(g)
 	c12CLI(g)
+	c12Badger(g)
+	c12GCZones(g)
 	return g.cases
 }
 
@@ -403,7 +440,7 @@ func c12Witnesses(g *c12Genr) {
 		commits: []c12Commit{c12Com(1, 1), c12Com(4, 2), c12Com(6, 2, 4), c12Com(3, 2, 6), c12Com(5, 1, 3), c12Com(2, 2, 5, 4),
 			c12Com(7, 2, 6, 6)}, refs: []c12Ref{head(1, 1)}})
 	for _, st := range []*c12State{chain, chainDown, chainMix} {
-		_, d, _ := c12Simulate(st, pp)
+		_, d, _ := c12Simulate(st, pp, nil)
 		for k := 0; k <= d; k++ {
 			g.add("wit", 0, st, c12OpCrash(k), c12OpPrune(), c12OpPrune())
 		}
@@ -548,7 +585,7 @@ func c12Exhaustive(g *c12Genr) {
 	}
 	for i := 0; i < nCrash; {
 		st := all[g.ctx.Pick(len(all))]
-		_, d, _ := c12Simulate(st, []*xt.T{c12OpPrune()})
+		_, d, _ := c12Simulate(st, []*xt.T{c12OpPrune()}, nil)
 		if d == 0 && g.ctx.Pick(10) != 0 {
 			continue
 		}
@@ -861,6 +898,197 @@ func c12CLI(g *c12Genr) {
 				ops = append(ops, c12OpDel(r.kind, r.num))
 			}
 			g.add(tag, mode, st, append(ops, c12OpPrune(), c12OpPrune())...)
+		}
+	}
+}
+
+// ---------------------------------------------------------------------------
+// big repositories on the real badger store: more than 100 keys follow every scanned prefix (badger's iterator
+// prefetch window), every commit has its own table with index and profile; judged by the same oracle, compared
+// with the same model.  mode 3 = prune.Prune on the badger store (with delete trace and crash prefixes),
+// modes 1/2 = the CLI commands.
+
+func c12BigState(g *c12Genr, nC int, manyBlocks bool) *c12State {
+	ctx := g.ctx
+	P := c12Pool()
+	st := &c12State{}
+	for i := 1; i <= nC; i++ {
+		t := c12Table{id: uint64(i)}
+		if manyBlocks {
+			// own small blocks (ids below 100000 are 2-row blocks) + one shared with the neighbour
+			t.blks = []uint64{uint64(1000 + 3*i), uint64(1001 + 3*i), uint64(1000 + 3*(i+1))}
+		} else {
+			t.blks = []uint64{P[2*ctx.Pick(4)]}
+			if ctx.Pick(2) == 0 {
+				t.blks = append(t.blks, P[8+2*ctx.Pick(4)])
+			}
+		}
+		t.idxs = append([]uint64{}, t.blks...)
+		st.tables = append(st.tables, t)
+		c := c12Commit{id: uint64(i), table: uint64(i)}
+		switch {
+		case i == 1 || ctx.Pick(12) == 0: // a root
+		case ctx.Pick(6) == 0 && i > 2: // a merge
+			c.parents = []uint64{uint64(i - 1), uint64(1 + ctx.Pick(i-2))}
+		default:
+			c.parents = []uint64{uint64(1 + ctx.Pick(i-1))}
+			if ctx.Pick(3) != 0 {
+				c.parents = []uint64{uint64(i - 1)}
+			}
+		}
+		st.commits = append(st.commits, c)
+	}
+	c12StoreAll(st)
+	// refs of every kind on about a third of the commits, always including a few of the newest
+	used := map[[2]uint64]bool{}
+	addRef := func(com uint64) {
+		for {
+			r := c12Ref{kind: uint64(ctx.Pick(4)), num: uint64(ctx.Pick(16)), commit: com}
+			if !used[[2]uint64{r.kind, r.num}] {
+				used[[2]uint64{r.kind, r.num}] = true
+				st.refs = append(st.refs, r)
+				return
+			}
+		}
+	}
+	addRef(uint64(nC - ctx.Pick(3)))
+	for i := 0; i < 2+ctx.Pick(4); i++ {
+		addRef(uint64(1 + ctx.Pick(nC)))
+	}
+	return st
+}
+
+func c12Badger(g *c12Genr) {
+	ctx := g.ctx
+	type spec struct {
+		mode, nC int
+		many     bool
+	}
+	specs := []spec{{3, 40, false}, {1, 36, true}}
+	if ctx.Thorough() {
+		specs = nil
+		for i := 0; i < 14; i++ {
+			specs = append(specs, spec{3, 30 + ctx.Pick(60), i%3 == 2})
+		}
+		for i := 0; i < 5; i++ {
+			specs = append(specs, spec{1, 30 + ctx.Pick(40), i%2 == 1}, spec{2, 30 + ctx.Pick(40), i%2 == 0})
+		}
+		specs = append(specs, spec{3, 130, false}, spec{3, 110, true})
+	}
+	for _, sp := range specs {
+		st := c12BigState(g, sp.nC, sp.many)
+		ops := []*xt.T{c12OpPrune(), c12OpPrune()}
+		// drop refs one at a time, prune after each
+		for i, r := range st.refs {
+			if i >= 3 {
+				break
+			}
+			ops = append(ops, c12OpDel(r.kind, r.num))
+			if sp.mode == 3 && !sp.many && i == 1 {
+				ops = append(ops, c12OpCrash(ctx.Pick(40)))
+			}
+			ops = append(ops, c12OpPrune())
+		}
+		ops = append(ops, c12OpPrune())
+		g.add("badger", sp.mode, st, ops...)
+		ctx.Count(fmt.Sprintf("gen_badger_mode%d", sp.mode))
+	}
+}
+
+// ---------------------------------------------------------------------------
+// gc (transaction.GarbageCollect + prune, as cmd/wrgl/gc_cmd.go) under several process time zones, with TTLs around
+// the zone offset and open transactions younger and older than the TTL: the result must not depend on the zone.
+
+func c12GCZones(g *c12Genr) {
+	ctx := g.ctx
+	zones := []int{-480, 0, 540}
+	if ctx.Thorough() {
+		zones = []int{-480, 0, 540, -210, 345, -720, 840}
+	}
+	reps := 2
+	if ctx.Thorough() {
+		reps = 14
+	}
+	P := c12Pool()
+	for _, off := range zones {
+		abs := off
+		if abs < 0 {
+			abs = -abs
+		}
+		ttls := []uint64{60, 1440}
+		if abs > 120 {
+			ttls = append(ttls, uint64(abs-60), uint64(abs+60))
+		} else {
+			ttls = append(ttls, 300)
+		}
+		for _, ttl := range ttls {
+			for rep := 0; rep < reps; rep++ {
+				mode := 0
+				switch {
+				case rep == 1 && ttl == ttls[0]:
+					mode = 2
+				case rep == 1 && ttl == ttls[1]:
+					mode = 3
+				case ctx.Thorough() && rep%7 == 5:
+					mode = 2
+				case ctx.Thorough() && rep%7 == 6:
+					mode = 3
+				}
+				// a main line on a branch, and one pending commit (own table) per transaction group
+				st := &c12State{}
+				nMain := 2 + ctx.Pick(3)
+				id := uint64(0)
+				newCommit := func(parents ...uint64) uint64 {
+					id++
+					t := c12Table{id: id, blks: []uint64{P[2*ctx.Pick(8)]}}
+					t.idxs = append([]uint64{}, t.blks...)
+					st.tables = append(st.tables, t)
+					st.commits = append(st.commits, c12Commit{id: id, table: id, parents: parents})
+					return id
+				}
+				tip := uint64(0)
+				for i := 0; i < nMain; i++ {
+					if tip == 0 {
+						tip = newCommit()
+					} else {
+						tip = newCommit(tip)
+					}
+				}
+				st.refs = append(st.refs, c12Ref{0, uint64(ctx.Pick(4)), tip})
+				env := &c12EnvT{tz: uint64(1000 + off), ages: map[uint64]uint64{}}
+				// ages well away from the TTL (the clock moves by milliseconds between build and gc)
+				ageChoices := []uint64{0, 1, ttl / 2, ttl - 20, ttl + 20, ttl + 45, 2 * ttl, ttl + 900}
+				for grp := uint64(0); grp < 6; grp++ {
+					if ctx.Pick(5) == 0 {
+						continue
+					}
+					env.ages[grp] = ageChoices[ctx.Pick(len(ageChoices))]
+					// one or two pending commits on top of the main line, staged under nested branch names
+					pend := newCommit(uint64(1 + ctx.Pick(nMain)))
+					st.refs = append(st.refs, c12Ref{3, grp*4 + uint64(ctx.Pick(4)), pend})
+					if ctx.Pick(3) == 0 {
+						pend2 := newCommit(pend)
+						for {
+							n := grp*4 + uint64(ctx.Pick(4))
+							if n != st.refs[len(st.refs)-1].num {
+								st.refs = append(st.refs, c12Ref{3, n, pend2})
+								break
+							}
+						}
+					}
+				}
+				newCommit() // an orphan, so that prune has work even when nothing expires
+				c12StoreAll(st)
+				ops := []*xt.T{c12OpGC(ttl), c12OpPrune()}
+				if mode == 2 {
+					ops = []*xt.T{c12OpGC(ttl), c12OpGC(ttl)}
+				} else if ctx.Pick(2) == 0 {
+					// a second gc with a shorter TTL after the first
+					ops = []*xt.T{c12OpGC(ttl + 30), c12OpGC(ttl), c12OpGC(ttl / 3), c12OpPrune()}
+				}
+				g.addEnv("gczone", mode, st, env, ops...)
+				ctx.Count(fmt.Sprintf("gen_gczone_utc%+d", off))
+			}
 		}
 	}
 }
